@@ -33,6 +33,11 @@ type obligationSpec struct {
 	Bounds   string   `json:"bounds"`
 	Covers   []string `json:"covers,omitempty"`   // labels that must be reached (vacuity)
 	Asserts  []string `json:"asserts,omitempty"`  // assertion labels that must be reached on >= 1 path
+	// MustReach: cover labels stating a possibility the PROPERTY demands ("some choice of the random
+	// source asks the live host"). When the exploration was complete (no bound hit, nothing
+	// unsupported, no unknown) and no path reaches the label, that is a violation decided over all
+	// paths - reported without a native replay (there is no single execution to replay).
+	MustReach []string `json:"must_reach,omitempty"`
 	Encodes  []string `json:"encodes,omitempty"`  // real functions that must have been executed from SSA
 	Stubs    []string `json:"stubs,omitempty"`    // documented stubs / assumptions of this obligation
 	Quick    tierSpec `json:"quick"`
@@ -332,6 +337,21 @@ func cmdCheck(args []string) int {
 		type fkey struct{ label, class string }
 		seen := map[fkey]bool{}
 		nviol := 0
+		for _, c := range o.MustReach {
+			if res.Covers[c] > 0 {
+				continue
+			}
+			if len(problems) > 0 {
+				problems = append(problems, "required possibility not reached (exploration incomplete): "+c)
+				continue
+			}
+			f := findingOut{Kind: "unreachable", Label: c, Msg: fmt.Sprintf("no execution within the bounds reaches %q (complete exploration of %d paths)", c, res.Paths)}
+			rp := writeReplay(prop, o, f, res.Params)
+			fmt.Printf("VIOLATION property=%s replay=%s\n", prop, rp)
+			fmt.Printf("  obligation=%s required possibility %q is unreachable: %s\n", o.ID, c, f.Msg)
+			nviol++
+			violations++
+		}
 		for _, f := range res.FindingsOut {
 			k := fkey{f.Label, f.Class}
 			if seen[k] {
